@@ -27,6 +27,16 @@ def native_check(seed=0):
                     p.add_(1.0)
             if any(not torch.equal(p.detach(), a[n]) for n, p in s.rbm_am.named_parameters()):
                 fails.append("%s: phase network shares parameters with the supplied module" % kind)
+    # gpu=True without a GPU is legal (a warning): the construction is the CPU one
+    import warnings
+    for kind, cls, args in (("positive", PositiveWaveFunction, (2, 3)), ("complex", ComplexWaveFunction, (2, 3)), ("mixed", DensityMatrix, (2, 3, 2))):
+        with warnings.catch_warnings():
+            warnings.simplefilter("ignore")
+            s = cls(*args, gpu=True)
+        for net in s.networks:
+            for n, p in getattr(s, net).named_parameters():
+                if n.startswith("weights") and not bool((p != 0).any()):
+                    fails.append("%s(..., gpu=True) on a CPU-only machine: %s.%s is all zero instead of a random draw" % (cls.__name__, net, n))
     # phase auxiliary bias stays zero through training with several optimizers
     for opt, oargs in ((torch.optim.SGD, {}), (torch.optim.SGD, {"momentum": 0.9}), (torch.optim.Adam, {}), (torch.optim.Adadelta, {})):
         s = DensityMatrix(2, 2, 2, gpu=False)
